@@ -100,7 +100,7 @@ def run_unit(unit, drv, res, seed, tier):
                     items.append((exec_case(0, "%s[k]" % ms, vs + [("k", q)]), ('ok', found if found is not None else NULL), 'map index', nt))
                     if q[0] == 's' and is_ident(q[1]):
                         items.append((exec_case(0, "%s.%s" % (ms, q[1]), vs),
-                                      ('ok', found) if found is not None else ('err', 'no_such_key'), 'field selection', nt))
+                                      ('ok', found) if found is not None else ('err', '*'), 'field selection', nt))
                         items.append((exec_case(0, "has(%s.%s)" % (ms, q[1]), vs), p, 'has()', nt))
         for part in chunks(items, 6000):
             cases = []
